@@ -24,7 +24,7 @@ var signerCallees = map[string]bool{
 	"GetScopeSpecification": true, "GetContractSpecification": true, "GetRecordSpecification": true,
 }
 
-var signerListVars = map[string]bool{"reqParties": true, "availableParties": true, "reqSigs": true}
+var signerListVars = map[string]bool{"reqParties": true, "availableParties": true, "reqSigs": true, "reqRoles": true}
 
 func emitSignerCalls(c *Ctx) (string, error) {
 	files, err := c.parseDir("x/metadata/keeper")
